@@ -303,8 +303,8 @@ func main() {
 
 	// ---------------- 1-Lipschitz: trees built from the listed operators ----------------
 	var lipShapes, pairs int64
-	n3 := shapes.Nodes3(c.Thorough())
-	n2 := shapes.Nodes2(c.Thorough())
+	n3 := shapes.Nodes3(vlib.Pick(c, 0, 2))
+	n2 := shapes.Nodes2(vlib.Pick(c, 0, 2))
 	offs := [][3]int{}
 	for a := -1; a <= 1; a++ {
 		for b := -1; b <= 1; b++ {
